@@ -3,7 +3,7 @@
 A tree is a list of nodes in preorder: {"kind": "Pages"|"Page", "parent": idx|None, "kids": [idx...]}.
 ``attrs[i]`` maps an inheritable key to a value token (or is missing/None = absent at node i):
 
-    Resources : "A" | "B"            (font resource /F1 -> FontA / FontB)
+    Resources : "A" | "B" | "E"      (font resource /F1 -> FontA / FontB; "E" = an explicit empty dictionary << >>)
     MediaBox  : (x0, y0, x1, y1)
     CropBox   : (x0, y0, x1, y1)
     Rotate    : int (multiple of 90)
@@ -162,9 +162,11 @@ def build(nodes, attrs, spell=lambda i, k: 0, contents: bool = True, rect: bool 
 
     def value(i, k, tok):
         mode = spell(i, k)
-        if k == "Resources":
+        if k == "Resources" and tok == "E":
+            v: Any = {}
+        elif k == "Resources":
             font = {"F1": Ref(FONT_A if tok == "A" else FONT_B)}
-            v: Any = {"Font": ind(font) if mode == 2 else font, "ProcSet": [N("PDF"), N("Text")]}
+            v = {"Font": ind(font) if mode == 2 else font, "ProcSet": [N("PDF"), N("Text")]}
         elif k in ("MediaBox", "CropBox"):
             v = [ind(x) if mode == 2 else x for x in tok]
         else:
